@@ -25,7 +25,7 @@ from geometer.point import (
     join,
     meet,
 )
-from geometer.utils import det, matvec, orth
+from geometer.utils import det, is_multiple, matvec, orth
 
 if TYPE_CHECKING:
     from geometer.shapes import PolytopeTensor
@@ -54,6 +54,13 @@ def crossratio(
     """
     if a == b:
         return np.ones(a.shape[: a.free_indices])
+
+    # positions of collections where a and b coincide (the cross ratio is 1 there, the formula below gives 0/0)
+    equal = None
+    if a.free_indices > 0 or b.free_indices > 0:
+        a_array, b_array = np.broadcast_arrays(a.array, b.array)
+        axes = tuple(range(-(a.rank - a.free_indices), 0))
+        equal = is_multiple(a_array, b_array, axis=axes, rtol=EQ_TOL_REL, atol=EQ_TOL_ABS)
 
     if (
         isinstance(a, LineTensor)
@@ -130,7 +137,12 @@ def crossratio(
     bc = det(np.stack([*o, b, c], axis=-2))
 
     with np.errstate(divide="ignore", invalid="ignore"):
-        return ac * bd / (ad * bc)
+        result = ac * bd / (ad * bc)
+
+    if equal is not None and np.any(equal):
+        result = np.where(equal, 1, result)
+
+    return result
 
 
 def harmonic_set(a: PointTensor, b: PointTensor, c: PointTensor) -> PointTensor:
